@@ -158,6 +158,11 @@ DED["C05"] = ("interpolation.__resampleTemporal: the resampling loop as a REGION
               "inner while loop terminates and never indexes past the last fix.",
               "building T, prepareTimeSampling (number / list / reference track), setObsList, Track.resample's front end and the whole spatial "
               "resampling (__resampleSpatial: abscissas k*ds on the 2-D polyline, non-decreasing timestamps): bounded only.")
+DED["C13"] = ("TrackWriter.writeToFile's column placement (REGION: the data-order slice, list.sort trusted): for every admissible assignment of "
+              "column indices the sorted order list has in position c the pair (c, d), d being the place in the printed data list [E, N, (U), (T)] "
+              "of the field whose column id is c - each datum is written in the column the reader takes it from.",
+              "ALL other clauses of C13 - decimal text of IEEE doubles, timestamp layout, header handling, GPX, WKT and network-CSV round "
+              "trips, the readers - are bounded only: they are about float formatting and file I/O, which no contract within reach decides.")
 for i, b, n in [
     ("C01", "all histories of feature operations to a depth bound over a colliding name alphabet, random longer ones; run-time contract = abstract name->column map", ""),
     ("C02", "all expression trees to depth 3 over a small alphabet, random to depth 6, vectors with 0, negatives, ties, NaN; oracle = ordinary arithmetic under the documented operator table", ""),
